@@ -18,7 +18,7 @@ import os
 sys.path.insert(0, os.path.dirname(os.path.abspath(__file__)))
 import dlib  # noqa: E402
 
-from traits.api import Any, CInt, HasTraits, Int, List, TraitError, TraitType  # noqa: E402
+from traits.api import Any, CInt, HasTraits, Instance, Int, List, TraitError, TraitType, Undefined  # noqa: E402
 from traits.trait_list_object import TraitList, TraitListObject  # noqa: E402
 
 EXN = ["IndexError", "ValueError", "TraitError", "TypeError"]
@@ -58,6 +58,10 @@ def val(a):
         return None
     if a == 201:
         return (1,)
+    if a == 202:
+        return Undefined               # the traits "no value yet" placeholder: no Int / CInt / Instance accepts it
+    if a == 203:
+        return CELL
     if 300 <= a < 400:
         return float(a - 300)          # equal to the int a - 300, but not the same value
     raise ValueError(a)
@@ -75,6 +79,10 @@ def atom(v):
         return 200
     if type(v) is tuple and v == (1,):
         return 201
+    if v is Undefined:
+        return 202
+    if isinstance(v, Cell):
+        return 203
     if type(v) is float and v != v:
         return 500                      # a NaN that is not one of the pooled objects
     if type(v) is float and v == int(v) and 0 <= v < 100:
@@ -95,6 +103,19 @@ def v_cint(x):
         raise TraitError("not convertible")
 
 
+class Cell(HasTraits):
+    """the class the forward reference Instance("Cell") of the VInst inner trait names"""
+
+
+CELL = Cell()
+
+
+def v_inst(x):
+    if x is None or isinstance(x, Cell):
+        return x
+    raise TraitError("not a Cell or None")
+
+
 def v_inc(x):
     """a non-idempotent conversion: validating twice would be visible"""
     if type(x) is int and 0 <= x < 90:
@@ -109,8 +130,13 @@ class IncTrait(TraitType):
         self.error(object, name, value)
 
 
-VALIDATORS = {"VAll": None, "VInt": v_int, "VCInt": v_cint, "VInc": v_inc}
+VALIDATORS = {"VAll": None, "VInt": v_int, "VCInt": v_cint, "VInc": v_inc, "VInst": v_inst}
 INNER = {"VAll": Any, "VInt": Int, "VCInt": CInt, "VInc": IncTrait}
+
+
+def inner_trait(vk):
+    """the inner trait of a container; VInst is a forward reference by name, resolved at the first validation"""
+    return Instance("Cell") if vk == "VInst" else INNER[vk]
 
 
 def raw_init(vk, a):
@@ -136,7 +162,7 @@ def owner_class(vk, minlen, maxlen, falsy=None):
         kw = {"minlen": minlen}
         if maxlen is not None:
             kw["maxlen"] = maxlen
-        members = {"l": List(INNER[vk], **kw)}
+        members = {"l": List(inner_trait(vk), **kw)}
         members.update(falsy_members(falsy))
         _classes[key] = type("H%d" % len(_classes), (HasTraits,), members)
     return _classes[key]
@@ -255,6 +281,13 @@ def apply_op(tl, op):
         r = operator.imul(tl, multiplier(op))
         if r is not tl:
             raise RuntimeError("*= returned a new object")
+    elif k == "SortPos":
+        if op[1] == "none-true":
+            tl.sort(None, True)
+        elif op[1] == "len":
+            tl.sort(len)
+        else:
+            tl.sort(None)
     elif k == "SetSliceN":
         tl[sl(op[1])] = {"none": None, "zero": 0, "false": False}[op[2]]
     elif k == "ExtendN":
@@ -348,7 +381,52 @@ def run_copy_case(case):
     return [first] + rest
 
 
+def run_react_case(case):
+    """A notifier (registered after the recorder) keeps the list bounded: told about added items while the list is longer
+    than K it pops the oldest one -- a nested operation on the list it is being notified about.  Per top-level operation:
+    the observation of the operation itself (contents as of its own notification) and, under "react", that of the pop."""
+    reset_pool()
+    owner, tl = make(case)
+    K = case["react"]
+    log = []          # (event, contents at the time of the event)
+    pops = []
+
+    def rec(trait_list, index, removed, added):
+        log.append(([enc_index(index), [atom(v) for v in removed], [atom(v) for v in added]], [atom(v) for v in tl]))
+
+    def bound(trait_list, index, removed, added):
+        if added and len(trait_list) > K and not pops:
+            pops.append(None)
+            try:
+                pops[0] = ("Ok", atom(trait_list.pop(0)))
+            except Exception as e:  # noqa
+                pops[0] = (dlib.exn_name(e, EXN), None)
+
+    tl.notifiers.append(rec)
+    tl.notifiers.append(bound)
+    hist = []
+    for op in case["ops"]:
+        del log[:]
+        del pops[:]
+        out, ret = "Ok", None
+        try:
+            ret = apply_op(tl, op)
+        except Exception as e:  # noqa
+            out = dlib.exn_name(e, EXN)
+        final = [atom(v) for v in tl]
+        if pops:
+            first = log[:1]
+            ob = {"out": out, "after": first[0][1] if first else final, "events": [e for e, _ in first], "ret": ret,
+                  "react": {"out": pops[0][0], "after": final, "events": [e for e, _ in log[1:]], "ret": pops[0][1]}}
+        else:
+            ob = {"out": out, "after": final, "events": [e for e, _ in log], "ret": ret, "react": None}
+        hist.append(ob)
+    return hist
+
+
 def run_case(case):
+    if case.get("react") is not None:
+        return run_react_case(case)
     if case["ops"] and case["ops"][0][0] == "Copy":
         return run_copy_case(case)
     reset_pool()
